@@ -1,11 +1,21 @@
 //go:build verif
 
 // vcheck runs one property check: vcheck <Cxx> [quick|thorough]
+//
+// The check itself runs in a child process (the same binary with VERIF_CHILD=1): code of krotik/ecal
+// that panics on a pool worker, or a Go "fatal error", kills the process it runs in. The supervising
+// parent turns such a crash - when frames of github.com/krotik/ecal are on the crashing stack - into a
+// VIOLATION with the crash output as replay; any other abnormal end is inconclusive (exit 2).
 package main
 
 import (
+	"bytes"
 	"fmt"
+	"io"
 	"os"
+	"os/exec"
+	"regexp"
+	"strings"
 
 	"verif/harness/ev"
 	"verif/harness/props"
@@ -15,13 +25,15 @@ var checks = map[string]struct {
 	fn   func(*ev.Run)
 	rule string
 }{
-	"C10": {props.C10, "a case is one monitor history (model behaviour replayed / random history recorded) or one execution of a cascade program on the real processor under one schedule; distinct = distinct history or (program, schedule); non-trivial = more than 3 operations / more than 8 property-level events"},
-	"C02": {props.C02, "a case is one execution of a cascade program on the real processor under one schedule (gate schedule or free run); distinct = distinct (program, mode, schedule); non-trivial = more than 8 property-level events"},
 	"C01": {props.C01, "a case is one rule set + cascade scope + event history executed on a fresh real processor (and through RuleIndex.Match/IsTriggering directly); distinct = distinct case id; non-trivial = more than one rule or more than one event"},
+	"C02": {props.C02, "a case is one execution of a cascade program on the real processor under one schedule (gate schedule or free run); distinct = distinct (program, mode, schedule); non-trivial = more than 8 property-level events"},
+	"C09": {props.C09, "a case is one execution of the real thread pool under one schedule (release sequence of the gate scheduler, or a free run); distinct = distinct (scenario, schedule); non-trivial = more than 3 scheduling decisions"},
+	"C10": {props.C10, "a case is one monitor history (model behaviour replayed / random history recorded) or one execution of a cascade program on the real processor under one schedule; distinct = distinct history or (program, schedule); non-trivial = more than 3 operations / more than 8 property-level events"},
 	"C11": {props.C11, "a case is one run of 2..80 overlapping sink invocations (events with payload-dictated outcome) under one schedule (followed counterexample, random gate schedule, or free run on 2..16 workers); distinct = distinct (events, schedule); non-trivial = at least two invocations"},
 	"C12": {props.C12, "a case is one run of 2..16 interpreter threads (direct evaluation goroutines or sinks on pool workers) executing generated programs of nested mutex blocks with every exit kind under one schedule; distinct = distinct (programs, schedule); non-trivial = more than 6 property-level events"},
-	"C09": {props.C09, "a case is one execution of the real thread pool under one schedule (release sequence of the gate scheduler, or a free run); distinct = distinct (scenario, schedule); non-trivial = more than 3 scheduling decisions"},
 }
+
+var crashRe = regexp.MustCompile(`(?m)^(panic: |fatal error: |\[signal SIG)`)
 
 func main() {
 	if len(os.Args) < 2 {
@@ -30,20 +42,83 @@ func main() {
 	}
 	id := os.Args[1]
 	tier := "quick"
+	if t := os.Getenv("VERIF_TIER"); t == "quick" || t == "thorough" {
+		tier = t
+	}
 	if len(os.Args) > 2 {
 		tier = os.Args[2]
-	}
-	if t := os.Getenv("VERIF_TIER"); t == "quick" || t == "thorough" {
-		if len(os.Args) <= 2 {
-			tier = t
-		}
 	}
 	c, ok := checks[id]
 	if !ok {
 		fmt.Println("unknown property", id)
 		os.Exit(2)
 	}
-	r := ev.Start(id, tier, ev.SeedFromEnv())
-	c.fn(r)
-	os.Exit(r.Finish(c.rule))
+	if os.Getenv("VERIF_CHILD") == "1" {
+		r := ev.Start(id, tier, ev.SeedFromEnv())
+		r.Rule = c.rule
+		c.fn(r)
+		os.Exit(r.Finish(c.rule))
+	}
+	if props.ChildMain(os.Getenv("VERIF_CHILD"), os.Args[1:]) {
+		return
+	}
+	// supervising parent
+	os.Remove("/verif/evidence/" + id + ".json")
+	cmd := exec.Command(os.Args[0], os.Args[1:]...)
+	cmd.Env = append(os.Environ(), "VERIF_CHILD=1", "GOTRACEBACK=all")
+	var buf bytes.Buffer
+	cmd.Stdout = io.MultiWriter(os.Stdout, &tailWriter{buf: &buf})
+	cmd.Stderr = cmd.Stdout
+	err := cmd.Run()
+	code := 0
+	if ee, ok := err.(*exec.ExitError); ok {
+		code = ee.ExitCode()
+	} else if err != nil {
+		fmt.Println("INCONCLUSIVE property=" + id + " cannot run the check process: " + err.Error())
+		os.Exit(2)
+	}
+	out := buf.String()
+	if code == 0 || code == 1 {
+		if code == 0 && strings.Contains(out, "VIOLATION property=") {
+			code = 1
+		}
+		os.Exit(code)
+	}
+	if loc := crashRe.FindStringIndex(out); loc != nil {
+		crash := out[loc[0]:]
+		if len(crash) > 20000 {
+			crash = crash[:20000]
+		}
+		first := strings.SplitN(crash, "\n", 2)[0]
+		// only the crashing goroutine counts: the message block and the first goroutine block
+		blocks := strings.SplitN(crash, "\n\n", 3)
+		crashing := blocks[0]
+		if len(blocks) > 1 {
+			crashing += "\n\n" + blocks[1]
+		}
+		if strings.Contains(crashing, "github.com/krotik/ecal/") {
+			sig := id + " process crash: " + first
+			path := ev.AmendCrash(id, tier, ev.SeedFromEnv(), sig, crash)
+			fmt.Printf("VIOLATION property=%s replay=%s\n  signature: %s\n  the process running krotik/ecal died (%s) with frames of github.com/krotik/ecal on the stack\n", id, path, sig, first)
+			os.Exit(1)
+		}
+		fmt.Printf("INCONCLUSIVE property=%s the check process crashed outside krotik/ecal: %s\n", id, first)
+		os.Exit(2)
+	}
+	fmt.Printf("INCONCLUSIVE property=%s the check process ended with exit code %d\n", id, code)
+	os.Exit(2)
+}
+
+// tailWriter keeps the last part of the output.
+type tailWriter struct{ buf *bytes.Buffer }
+
+func (t *tailWriter) Write(p []byte) (int, error) {
+	t.buf.Write(p)
+	if t.buf.Len() > 4<<20 {
+		b := t.buf.Bytes()
+		keep := append([]byte(nil), b[len(b)-(2<<20):]...)
+		t.buf.Reset()
+		t.buf.Write(keep)
+	}
+	return len(p), nil
 }
